@@ -95,7 +95,7 @@ Hypothesis Hor : oracle_ok enum H P.
 Lemma percc_facts pc j m : In pc (comps P) -> In (j, m) (percc_of enum H pc) ->
   exists hc, nth_error (comps H) j = Some hc /\ In m (enum hc pc) /\ is_mono_on H P hc pc m.
 Proof.
-  intros Ipc I. apply (in_percc_of enum H) in I. destruct I as (hc & Ej & _ & Im).
+  intros Ipc I. apply (in_percc_of enum H) in I. destruct I as (hc & Ej & Hle & Im).
   exists hc. split; [exact Ej|]. split; [exact Im|].
   apply (proj2 Hor hc pc); auto. eapply nth_error_In; eauto.
 Qed.
@@ -106,18 +106,20 @@ Proof.
   - exact eqm_equiv.
   - unfold cands. apply NoDup_filter. apply NoDup_index_from.
   - intros [i hc] I. cbn [fst snd]. apply NoDupA_map_pair.
-    unfold cands in I. apply filter_In in I. destruct I as [I _]. apply in_index_from in I.
+    unfold cands in I. apply filter_In in I. destruct I as [I Hle]. cbn [snd] in Hle. apply Nat.leb_le in Hle.
+    apply in_index_from in I.
     destruct I as [_ I]. rewrite Nat.sub_0_r in I. apply (proj2 Hor hc pc); auto. eapply nth_error_In; eauto.
   - intros [i hc] [i' hc'] [j m] [j' m'] I I' Iy Iy' E. cbn [fst snd] in *.
     apply in_map_iff in Iy. destruct Iy as (m0 & [= <- <-] & Im).
     apply in_map_iff in Iy'. destruct Iy' as (m1 & [= <- <-] & Im').
-    unfold cands in I, I'. apply filter_In in I. apply filter_In in I'. destruct I as [I _], I' as [I' _].
+    unfold cands in I, I'. apply filter_In in I. apply filter_In in I'. destruct I as [I Hle], I' as [I' Hle'].
+    cbn [snd] in Hle, Hle'. apply Nat.leb_le in Hle. apply Nat.leb_le in Hle'.
     apply in_index_from in I. apply in_index_from in I'. destruct I as [_ I], I' as [_ I']. rewrite Nat.sub_0_r in I, I'.
     unfold eqm in E. cbn [snd] in E.
     assert (Ihc : In hc (comps H)) by (eapply nth_error_In; eauto).
     assert (Ihc' : In hc' (comps H)) by (eapply nth_error_In; eauto).
-    destruct (proj1 (proj2 Hor hc pc Ihc Ipc) m0 Im) as (_ & B & _ & D & _).
-    destruct (proj1 (proj2 Hor hc' pc Ihc' Ipc) m1 Im') as (_ & _ & _ & D' & _).
+    destruct (proj1 (proj2 Hor hc pc Ihc Ipc Hle) m0 Im) as (_ & B & _ & D & _).
+    destruct (proj1 (proj2 Hor hc' pc Ihc' Ipc Hle') m1 Im') as (_ & _ & _ & D' & _).
     destruct (comps_class P HwfP pc Ipc) as (Hne & _).
     destruct pc as [|p0 pc']; [congruence|].
     assert (I0 : In p0 (map fst m0)) by (apply B; left; reflexivity).
